@@ -35,3 +35,56 @@ def c19_test_data(inp, obligation):
         except Exception as e:  # noqa
             bad.append("round %d: evaluate() after test_data raised %s: %s" % (rnd, type(e).__name__, e))
     return bool(bad), {"violations": bad[:4]}
+
+
+@handler("C19.learn_twice")
+def c19_learn_twice(inp, obligation):
+    """an object whose first learning attempt aborts while the last class is learned (user error calculator raising at its last invocation), then learns again:
+    the estimator table must hold exactly one estimator per class"""
+    import numpy as np
+    from sparseSpACE.DEMachineLearning import DataSet, Classification
+    from sparseSpACE.ErrorCalculator import ErrorCalculatorSingleDimVolumeGuided
+    from bounded.api import quiet
+
+    class Fault(Exception):
+        pass
+
+    class Counting(ErrorCalculatorSingleDimVolumeGuided):
+        def __init__(self, k):
+            super().__init__()
+            self.n, self.k = 0, k
+
+        def calc_error(self, *a, **kw):
+            self.n += 1
+            if self.n == self.k:
+                raise Fault()
+            return super().calc_error(*a, **kw)
+    rng = np.random.RandomState(4)
+    X = np.vstack([rng.normal(0.3, 0.08, size=(25, 2)), rng.normal(0.7, 0.08, size=(25, 2))])
+    y = np.array([0] * 25 + [1] * 25)
+    bad = []
+
+    def make():
+        np.random.seed(7)
+        return Classification(DataSet((X.copy(), y.copy()), name="S"), split_percentage=0.8, split_evenly=True, shuffle_data=True)
+
+    def learn(obj, ec):
+        with quiet():
+            obj.perform_classification_dimension_wise(masslumping=True, lambd=0.0, minimum_level=1, maximum_level=2, max_evaluations=20, print_metrics=False, error_calculator=ec)
+    twin, cnt = make(), Counting(0)
+    learn(twin, cnt)
+    obj = make()
+    try:
+        learn(obj, Counting(cnt.n))
+        return False, {"note": "the injected fault did not surface"}
+    except Fault:
+        pass
+    learn(obj, Counting(0))
+    n_est = len(obj.get_density_estimation_results()[0])
+    if n_est != 2:
+        bad.append("after an aborted and a repeated learning call the object holds %d estimators for 2 classes" % n_est)
+    with quiet():
+        got = set(int(c) for c in obj._classificate(obj.get_learning_data()))
+    if not got <= {0, 1}:
+        bad.append("classes assigned to the learning samples: %s (labels are 0 and 1)" % sorted(got))
+    return bool(bad), {"violations": bad}
